@@ -207,8 +207,8 @@ def flags(ctx):
         for n in body_walk(fi.node):
             if isinstance(n, (ast.If, ast.IfExp, ast.While)) and any(isinstance(x, ast.Attribute) and x.attr == 'constant' for x in ast.walk(n.test)):
                 t = n.test
-                none_test = isinstance(t, ast.Compare) and len(t.ops) == 1 and isinstance(t.ops[0], (ast.Is, ast.IsNot)) and \
-                    isinstance(t.comparators[0], ast.Constant) and t.comparators[0].value is None
+                from sa.rules.common import _truthiness_operands
+                none_test = not any(x.attr == 'constant' for x in _truthiness_operands(t))
                 ctx.check(none_test, f'{fi.qualname}:constant tested against None', n, f'`{src(t)}`',
                           f'`{src(t)}` tests the constant by truthiness: a constant whose serialised value is falsy (0, 0.0, \'\', False, enum code 0) is '
                           'not treated as constant - it reads as the cached value instead of the described constant (or can be changed)', fi)
